@@ -558,6 +558,6 @@ func rejectionRun(fc *faultCtx, c Case) (res Result) {
 func init() {
 	register(&Engine{Name: "faults", Props: []string{"C10"}, Cases: faultCases, Run: faultRun})
 	propMeta["C10"] = PropMeta{Level: "fault_enumeration",
-		Rule: "per case one generated history (fs-level and batched calls, then one handle driven through ReadAll / Seek / Write / Sync / WriteAt / Truncate / WriteString / Stat / Close and one Operations.Restore) is run fault-free while the seams count, per call, the drive writes, drive reads, index-store calls, write-cache calls, source reads and drive opens it reaches; then the call is re-run from a snapshot of the instance taken before it once for every k up to each count with exactly that event failing (error, and short write for drive writes; closing the drive writer/reader, the write-cache clean-up and the source's Close report an error after doing their work), once more per point as the first event of a PERSISTENT failure (from that event on every drive open / read / write / close - resp. every write-cache call, every source call, every index-store call - fails until the call returns), once with the drive directory missing, once with the drive path being a directory and once with the drive file write-protected by the immutable attribute (real EISDIR / EPERM from the operating system, not a wrapper); once each with the index database's write lock resp. exclusive lock held by a second connection for the duration of the call (the real SQLite file refuses, not a wrapper) and released afterwards; finally construct + Initialize over the final tape, with the index absent (rebuild on open) and present, is re-run once per drive / index-store event it reaches, transient and persistent, followed by a second Initialize on the same instance; after each: the call returned, the process lives, no lock is held once the streaming goroutine has settled (lock hooks), the process has no descriptor on the drive file any more (/proc/self/fd, bounded wait), and a probe lookup + mutating call return; plus two cases of explicit precondition rejections and lookups through symbolic links that form a cycle; non-trivial = at least 20 fault points fired; distinct = distinct (configuration, history)",
+		Rule: "per case one generated history (fs-level and batched calls, then one handle driven through ReadAll / Seek / Write / Sync / WriteAt / Truncate / WriteString / Stat / Close and one Operations.Restore) is run fault-free while the seams count, per call, the drive writes, drive reads, index-store calls, write-cache calls, source reads and drive opens it reaches; then the call is re-run from a snapshot of the instance taken before it once for every k up to each count with exactly that event failing (error, and short write for drive writes; closing the drive writer/reader, the write-cache clean-up and the source's Close report an error after doing their work; every second close fault of the drive is produced inside the drive manager - its descriptor is closed under it, so that its own close reports a real error), once more per point as the first event of a PERSISTENT failure (from that event on every drive open / read / write / close - resp. every write-cache call, every source call, every index-store call - fails until the call returns), once with the drive directory missing, once with the drive path being a directory and once with the drive file write-protected by the immutable attribute (real EISDIR / EPERM from the operating system, not a wrapper); once each with the index database's write lock resp. exclusive lock held by a second connection for the duration of the call (the real SQLite file refuses, not a wrapper) and released afterwards; finally construct + Initialize over the final tape, with the index absent (rebuild on open) and present, is re-run once per drive / index-store event it reaches, transient and persistent, followed by a second Initialize on the same instance; after each: the call returned, the process lives, no lock is held once the streaming goroutine has settled (lock hooks), the process has no descriptor on the drive file any more (/proc/self/fd, bounded wait), and a probe lookup + mutating call return; plus two cases of explicit precondition rejections and lookups through symbolic links that form a cycle; non-trivial = at least 20 fault points fired; distinct = distinct (configuration, history)",
 		Assumptions: []string{"the state after a fault is not judged", "re-runs start from a reopened copy of the instance as it was before the call (index + tape), not from a replay of the whole history", "hang verdicts come from the no-progress watchdog classified by goroutine state"}}
 }
